@@ -60,3 +60,11 @@ pub fn point(site: &'static str, a: i64, b: i64, ready: Option<&dyn Fn() -> bool
         obs.at(site, a, b, ready);
     }
 }
+
+/// Direct access to the partitioned-Rice parameter search (`rice.rs` is a private module): returns
+/// `(partition order, parameters, code_bits)` chosen for `signal` (residual values; the first
+/// `warmup_length` entries are not coded) under the maximum parameter `max_p`.
+pub fn rice_find(signal: &[i32], warmup_length: usize, max_p: usize) -> (usize, Vec<u8>, usize) {
+    let p = crate::rice::find_partitioned_rice_parameter(signal, warmup_length, max_p);
+    (p.order, p.ps, p.code_bits)
+}
